@@ -745,6 +745,8 @@ def run_case(desc):
                 obs.note(errs2=out.errs2)
         _check_unused(obs, desc, P, out, gname)
         obs.note(worst_ratio=worst[0], rhs_calls=dict(P.cnt))
+        if worst[0] > 1e-2:
+            obs.count("error_above_1pct_of_tolerance")
         obs.nontrivial = out.scale1 > 0 and P.cnt["bwd"] > 0
         return obs.result()
 
@@ -783,6 +785,8 @@ def run_case(desc):
             obs.note(errs2=levels[1].errs2)
         _check_unused(obs, desc, P, levels[1], "fixed")
         obs.note(worst_ratio=worst[0], rhs_calls=dict(P.cnt))
+        if worst[0] > 1e-2:
+            obs.count("error_above_1pct_of_tolerance")
         obs.nontrivial = levels[0].scale1 > 0 and P.cnt["bwd"] > 0
         return obs.result()
     raise HarnessBug("unknown group %s" % group)
